@@ -29,7 +29,7 @@ MANIFEST = {
                  "the Go implementation (direct scripts, traced real starts, exhaustive small scripts in the thorough tier)",
 }
 
-HEADER = ("From Coq Require Import List Arith Bool.\n"
+HEADER = ("From Coq Require Import List Arith Bool NArith.\n"
           "From IocVerif Require Import Model.Registry Model.RegistryProto Corr.Check_C04.\nImport ListNotations.\n")
 
 
@@ -190,13 +190,18 @@ class Gen:
 
 def gen_script(rng, flavour=None):
     flavour = flavour or rng.choice(["factory", "factory", "conforming", "conforming", "arbitrary"])
-    g = Gen(rng, rng.choice([1, 2, 2, 3, 4, 6]), rng.choice([4, 8, 15, 25, 40, 40]))
-    if flavour == "factory":
-        ops = g.factorylike()
-    elif flavour == "conforming":
-        ops = g.conforming([], 0)
-    else:
-        ops = g.arbitrary(0)
+    budget = rng.choice([5, 10, 18, 28, 36, 36])
+    for _try in range(20):
+        g = Gen(rng, rng.choice([1, 2, 2, 3, 4, 6]), budget)
+        if flavour == "factory":
+            ops = g.factorylike()
+        elif flavour == "conforming":
+            ops = g.conforming([], 0)
+        else:
+            ops = g.arbitrary(0)
+        if count_ops(ops) <= 40:  # at most 40 registry calls when nothing is skipped
+            break
+        budget = max(4, budget - 4)
     return {"kind": "script", "flavour": flavour, "ops": ops}
 
 
@@ -333,7 +338,7 @@ def case_term(cid, kind, trace, lookups):
         o, i = ev_terms(e)
         ops.append(o)
         obs.append(i)
-    return "mkCase %d %d %s %s %s" % (cid, kind, vlib.coq_list(ops), vlib.coq_list(obs),
+    return "mkCase %d%%N %d %s %s %s" % (cid, kind, vlib.coq_list(ops), vlib.coq_list(obs),
                                       vlib.coq_list(lookup_term(l) for l in lookups))
 
 
@@ -369,35 +374,41 @@ def evaluate(ctx, binp, cases, tag, shard=250):
 # ------------------------------------------------------------------------------------------------
 # thorough tier: every script up to a length over two names
 
-def enum_scripts(maxlen, names=(0, 1)):
-    """All tree scripts with at most maxlen flat ops (a creation counts 2: its begin and its end) over the alphabet
-    af(ok|err) rm as g(early|not) ic c(ok|err), names 0/1, canonical values. Only maximal ones are returned
-    (every shorter script is a prefix-execution of a longer one and is compared step by step there)... except that a
-    creation's end moves; so all lengths are kept."""
-    atoms = []
-    for n in names:
-        atoms += [lambda f, n=n: {"k": "af", "n": n, "f": f, "o": [n, 0]},
-                  lambda f, n=n: {"k": "af", "n": n, "f": f, "o": None},
-                  lambda f, n=n: {"k": "rm", "n": n},
-                  lambda f, n=n: {"k": "as", "n": n, "v": [n, 1]},
-                  lambda f, n=n: {"k": "g", "n": n, "e": True},
-                  lambda f, n=n: {"k": "g", "n": n, "e": False},
-                  lambda f, n=n: {"k": "ic", "n": n}]
+def enum_scripts(lengths, conforming=False, names=(0, 1)):
+    """All tree scripts whose flat length (a creation counts 2: its begin and its end) is in `lengths`, over the alphabet
+    af(ok|err) rm as g(early|not) ic c(ok|err), names 0/1, canonical values (factory result / creation result = the
+    original of the name, AddSingleton publishes a proxy).  conforming=True: only scripts in the protocol language
+    (af only for an open name, rm/as/c only for a name that is not open)."""
+    def atoms(open_):
+        res = []
+        for n in names:
+            if not conforming or n in open_:
+                res += [lambda f, n=n: {"k": "af", "n": n, "f": f, "o": [n, 0]},
+                        lambda f, n=n: {"k": "af", "n": n, "f": f, "o": None}]
+            if not conforming or n not in open_:
+                res += [lambda f, n=n: {"k": "rm", "n": n},
+                        lambda f, n=n: {"k": "as", "n": n, "v": [n, 1]}]
+            res += [lambda f, n=n: {"k": "g", "n": n, "e": True},
+                    lambda f, n=n: {"k": "g", "n": n, "e": False},
+                    lambda f, n=n: {"k": "ic", "n": n}]
+        return res
 
-    def seqs(k):
+    def seqs(k, open_):
         """all op lists of flat length exactly k"""
         if k == 0:
             yield []
             return
-        for a in atoms:
-            for rest in seqs(k - 1):
+        for a in atoms(open_):
+            for rest in seqs(k - 1, open_):
                 yield [a] + rest
         if k >= 2:
             for n in names:
+                if conforming and n in open_:
+                    continue
                 for ok in (True, False):
                     for inner in range(0, k - 1):
-                        for body in seqs(inner):
-                            for rest in seqs(k - 2 - inner):
+                        for body in seqs(inner, open_ | {n}):
+                            for rest in seqs(k - 2 - inner, open_):
                                 yield [("c", n, ok, body)] + rest
 
     def build(s, ctr):
@@ -411,8 +422,8 @@ def enum_scripts(maxlen, names=(0, 1)):
                 ops.append(a(ctr[0]))
         return ops
 
-    for k in range(1, maxlen + 1):
-        for s in seqs(k):
+    for k in lengths:
+        for s in seqs(k, frozenset()):
             yield {"kind": "script", "flavour": "exhaustive", "ops": build(s, [0])}
 
 
@@ -451,28 +462,50 @@ def run(ctx):
     ctx.log("cases=%d nontrivial=%d conforming=%d strict=%d mismatches=%d violations=%d" % (
         len(cases), nt, ncf, nstrict, len(M), len(V)))
     nexh = 0
+    exh_note = ""
     if not ctx.quick() and not ctx.replay:
-        maxlen = int(os.environ.get("VERIF_C04_EXHAUSTIVE", "5"))
-        batch, base = [], len(cases)
-        for sc in enum_scripts(maxlen):
-            batch.append(sc)
-            if len(batch) == 40000:
-                b2, M2, V2, _, _, _ = evaluate(ctx, binp, batch, "exh%d" % nexh, shard=2500)
-                for i in M2 + V2:
-                    by_id[base + nexh + i] = b2[i]
-                M += [base + nexh + i for i in M2]
-                V += [base + nexh + i for i in V2]
-                nexh += len(batch)
-                batch = []
-        if batch:
-            b2, M2, V2, _, _, _ = evaluate(ctx, binp, batch, "exh%d" % nexh, shard=2500)
-            for i in M2 + V2:
-                by_id[base + nexh + i] = b2[i]
-            M += [base + nexh + i for i in M2]
-            V += [base + nexh + i for i in V2]
-            nexh += len(batch)
-        ctx.log("exhaustive: %d scripts up to flat length %d over 2 names; mismatches=%d violations=%d" % (
-            nexh, maxlen, len(M), len(V)))
+        from concurrent.futures import ThreadPoolExecutor
+        full = int(os.environ.get("VERIF_C04_EXHAUSTIVE", "5"))
+        conf = int(os.environ.get("VERIF_C04_EXHAUSTIVE_CONF", "6"))
+        base = len(cases)
+
+        def batches():
+            batch = []
+            for sc in itertools.chain(enum_scripts(range(1, full + 1)),
+                                      enum_scripts(range(full + 1, conf + 1), conforming=True)):
+                batch.append(sc)
+                if len(batch) == 40000:
+                    yield batch
+                    batch = []
+            if batch:
+                yield batch
+
+        def one(arg):
+            k, batch = arg
+            b2, M2, V2, _, _, _ = evaluate(ctx, binp, batch, "exh%d" % k, shard=2500)
+            return k, len(batch), {i: b2[i] for i in M2 + V2}, M2, V2
+
+        with ThreadPoolExecutor(max_workers=2) as ex:
+            pending = []
+            for k, batch in enumerate(batches()):
+                pending.append(ex.submit(one, (k, batch)))
+                while len(pending) >= 3:  # bound memory: at most three batches in flight
+                    k2, n2, bad, M2, V2 = pending.pop(0).result()
+                    for i in bad:
+                        by_id[base + k2 * 40000 + i] = bad[i]
+                    M += [base + k2 * 40000 + i for i in M2]
+                    V += [base + k2 * 40000 + i for i in V2]
+                    nexh += n2
+            for fut in pending:
+                k2, n2, bad, M2, V2 = fut.result()
+                for i in bad:
+                    by_id[base + k2 * 40000 + i] = bad[i]
+                M += [base + k2 * 40000 + i for i in M2]
+                V += [base + k2 * 40000 + i for i in V2]
+                nexh += n2
+        exh_note = ("every script of flat length <= %d over 2 names (full alphabet), and every protocol-conforming "
+                    "script of flat length %d..%d" % (full, full + 1, conf))
+        ctx.log("exhaustive: %d scripts (%s); mismatches=%d violations=%d" % (nexh, exh_note, len(M), len(V)))
 
     def size(i):
         return len(by_id[i]["executed"]) + 10 * len(by_id[i]["case"].get("comps", []))
@@ -543,7 +576,7 @@ def run(ctx):
         "traces_validated_against_impl": traced,
         "input_distribution": {"flavours": flav, "executed_length_buckets": sizes, "max_nesting_depth": depth,
                                "in_protocol_language": ncf, "in_strict_language": nstrict,
-                               "exhaustive_scripts": nexh},
+                               "exhaustive_scripts": nexh, "exhaustive_scope": exh_note},
         "nontrivial_cases": nt,
         "distinct_cases": distinct,
     }
